@@ -28,6 +28,7 @@ structure RuleConfig where
   exceptPresent : Bool := false
   importDir : Option Bool := none              -- import_
   anything : Bool := false                     -- rule_object_anything
+  dropped : List Filter := []                  -- modules_removed_by_alias_conversion (repair of F-C13b)
 deriving DecidableEq, Repr
 
 structure RuleState where
@@ -79,14 +80,26 @@ def RuleState.step (glob : Str → Str) (s : RuleState) : RuleOp → Except ErrK
 def dedupSubjects (fs : List Filter) : List Filter :=
   fs.filter fun m => !(fs.any fun other => isStrictSub other.id m.id)
 
-/-- `_convert_aliases` -/
+/-- the rule subjects `_convert_aliases` removes: those not retained by the de-duplication, in subject order -/
+def droppedSubjects (fs : List Filter) : List Filter :=
+  fs.filter fun m => !(dedupSubjects fs).contains m
+
+/-- `_convert_aliases` (after the repair of F-C13b the removed subjects are remembered in the configuration) -/
 def convertAliases (c : RuleConfig) : RuleConfig :=
   if !c.anything then c
   else
     let s := c.subjects.map dedupSubjects
-    { c with anything := false, subjects := s, objects := s, exceptPresent := true }
+    { c with anything := false, subjects := s, objects := s, exceptPresent := true,
+             dropped := match c.subjects with | none => [] | some ss => droppedSubjects ss }
 
 def anythingMisused (c : RuleConfig) : Bool := c.anything && !c.shouldNot
+
+/-- `_assert_modules_removed_by_alias_conversion_exist` (repair of F-C13b) raises `KeyError`: some rule subject that
+    `_convert_aliases` removed (now or in an earlier application of the same rule object) and that is not a regex filter
+    has an identifier that is not a module of the evaluable architecture. Such a subject is never looked up by the
+    queries, so without this check a module that does not exist would go unnoticed. -/
+def droppedAbsent (g : PGraph Str) (c : RuleConfig) : Bool :=
+  c.dropped.any fun f => !f.isRegex && !g.hasNode f.id
 
 /-- `_assert_required_configuration_present` (first part) -/
 def configMissing (c : RuleConfig) : Bool :=
@@ -252,6 +265,7 @@ def assertApplies (mt : Str → Str → Bool) (s : RuleState) (g : PGraph Str) :
     let c := convertAliases s.cfg
     let s' := { s with cfg := c }
     if configMissing c then (s', .err .improperlyConfigured)
+    else if droppedAbsent g c then (s', .err .lookupError)   -- before `BehaviorRequirement` is constructed
     else if c.behavior.inconsistent then (s', .err .ruleInconsistency)
     else
       match c.importDir, c.subjects, c.objects with
